@@ -130,6 +130,22 @@ def max_quot_divisions(rng):
     return out
 
 
+def all_nines(rng):
+    """(c, n): coefficients whose last n digits are all 9 (or all 0 / 0..01) with a huge, a medium and a small
+    integral part: the worst case of every multiply-by-reciprocal or limb-wise division by 10^n"""
+    out = []
+    for n in range(1, 19):
+        T = 10**n
+        for q in (MAXC // T - 1, MAXC // T - 2, 10 ** (38 - n) - 1, 2**64, 2**64 - 1, rng.getrandbits(126 - int(n * 3.33)), 7, 0):
+            for frac in (T - 1, T - 2, 0, 1, T // 2):
+                c = q * T + frac
+                if 0 <= c <= MAXC:
+                    out.append((c, n))
+        c = MAXC - (MAXC + 1) % T        # the largest coefficient = -1 mod 10^n
+        out.append((c, n))
+    return out
+
+
 MODE_DEPENDENT = re.compile(r"^(dd|di|id|ii)\.(mul|cmul|div|cdiv|divr|mulr|quant)\b|^un\.(round|cround)\b|^fmt\.|^w\.(divr|sdr|mdr)\b|^thr\.|^frm\.")
 
 
@@ -977,6 +993,9 @@ def gen_C14(rng, n):
     for c in LIMB_BOUNDS[::3]:
         for p in (0, 1, 18):
             out.append("un.toint.i128 5 %s %d" % (hx(c), p)); out.append("un.toint.u64 5 %s %d" % (hx(c), p))
+    for (c, nn) in all_nines(rng):
+        for ty in ("i128", "u64", "i64"):
+            out.append("un.toint.%s 5 %s %d" % (ty, hx(c), nn)); out.append("un.toint.%s 5 %s %d" % (ty, hx(-c), nn))
     for w in (31, 32, 63, 64):
         for dl in range(-3, 4):
             for p in (1, 3, 18):
@@ -1058,6 +1077,9 @@ def gen_C15(rng, n):
         for p in (1, 9, 18):
             for op in ("floor", "ceil", "trunc", "fract", "mag"):
                 out.append(un(op, 5, c, p))
+    for (c, nn) in all_nines(rng):
+        for op in ("floor", "ceil", "trunc", "fract"):
+            out.append(un(op, 5, c, nn)); out.append(un(op, 5, -c, nn))
     # the 17-bit kernel itself (hook): every threshold neighbourhood, then a stride over 1..99999
     for t in (1, 9, 10, 11, 99, 100, 101, 999, 1000, 1001, 9999, 10000, 10001, 99998, 99999):
         out.append("w.lt5 5 %x" % t)
@@ -1312,6 +1334,10 @@ def gen_C07(rng, n):
                   15, -15, 10**38, 123456789012345678901234567890123456789 % (MAXC + 1)):
             out.append("str.tostring 5 %s %d" % (hx(clamp(c)), p))
             out.append("str.roundtrip 5 %s %d" % (hx(clamp(c)), p))
+    for (c, nn) in all_nines(rng):
+        for sg in (1, -1):
+            out.append("str.tostring 5 %s %d" % (hx(sg * c), nn))
+            out.append("str.roundtrip 5 %s %d" % (hx(sg * c), nn))
     # coefficients at the width of narrower machine types (fast paths, casts) and at the scaling limits
     for c in WIDTH_BOUNDS:
         for p in (0, 1, 6, 18):
@@ -1409,6 +1435,9 @@ def gen_C11(rng, n):
     for c in WIDTH_BOUNDS:
         for f in (0, 1, 9, 18):
             out.append(fmt_line(rng, rng.randrange(len(COMBOS)), rng.choice(MODES), rng.choice((None, 0, 30)), rng.choice((None, f, 18, 0, max(0, f - 1))), c, f))
+    for (c, nn) in all_nines(rng):
+        for pr in (None, nn, max(0, nn - 1), 18):
+            out.append(fmt_line(rng, rng.randrange(len(COMBOS)), rng.choice(MODES), rng.choice((None, 50)), pr, rng.choice((1, -1)) * c, nn))
     # every precision 0..40 x every mode, plain flags
     for p in list(range(41)) + [None]:
         for m in MODES:
@@ -1716,6 +1745,10 @@ def gen_C19(rng, n):
         ln = rng.randrange(3, 24)
         evs = [thr_event(rng, rng.randrange(nt)) for _ in range(ln)]
         out.append("thr.%s 5 %s" % ("forced" if rng.randrange(5) else "free", " ".join(evs)))
+    # many threads holding the same non-default mode at once (a narrow shared counter would wrap)
+    for nthr in (2, 16, 255, 256, 257, 300):
+        for m in (7, 1, 4):
+            out.append("thr.crowd 5 %d %d" % (m, nthr))
     return out
 
 
